@@ -197,8 +197,12 @@ def _aged_encoder(ctx: Ctx, item):
                 fn(m)
             except Exception:
                 pass
-    dec = NMEA2000Decoder()
-    keys = [d.key for d in db.defs if d.encodable][part::parts]
+    # the messages come from a decoder with network mapping on (sender has claimed): they carry the sender's identity and a hash, and -
+    # read from log lines - all the same timestamp
+    from .. import traffic
+    dec = NMEA2000Decoder(build_network_map=True)
+    dec.decode_tcp(traffic.render({"pgn": 60928, "src": 1, "dest": 255, "data": traffic.iso_name(4242, 137).to_bytes(8, "little")}))
+    keys = [d.key for d in db.defs if d.encodable and d.pgn != 60928][part::parts]
 
     def strip(pk_list, fast):
         # the sequence counter of fast-packet frames legitimately differs between two encoder instances
